@@ -851,3 +851,378 @@ Proof.
   - discriminate.
   - constructor; [now apply valid_merged|exact HY].
 Qed.
+
+(* ================================================================== E. validation, sorting, create *)
+Section Sorting.
+Context {V : Type}.
+Notation recd := (key * V)%type.
+
+(** weakly sorted by key: no later record has a smaller key *)
+Definition kge (a b : recd) : Prop := kltb (fst b) (fst a) = false.
+Definition WSorted (l : list recd) : Prop := StronglySorted kge l.
+
+Lemma sort_ins_perm (p : recd) l : Permutation (p :: l) (sort_ins p l).
+Proof.
+  induction l as [|q t IH]; cbn [sort_ins]; [reflexivity|].
+  destruct (kltb (fst p) (fst q)); [reflexivity|].
+  eapply Permutation_trans; [apply perm_swap|]. now apply perm_skip.
+Qed.
+Lemma fold_sort_ins_perm (l : list recd) : forall acc,
+  Permutation (l ++ acc) (fold_left (fun acc p => sort_ins p acc) l acc).
+Proof.
+  induction l as [|p t IH]; intros acc; cbn [fold_left app]; [reflexivity|].
+  eapply Permutation_trans; [|apply IH]. eapply Permutation_trans; [apply Permutation_middle|].
+  apply Permutation_app_head. apply sort_ins_perm.
+Qed.
+Lemma sort_values_perm (l : list recd) : Permutation l (sort_values l).
+Proof. unfold sort_values. rewrite <- (app_nil_r l) at 1. apply fold_sort_ins_perm. Qed.
+
+Lemma sort_ins_ws (p : recd) l : WSorted l -> WSorted (sort_ins p l).
+Proof.
+  unfold WSorted. induction l as [|q t IH]; intro H; cbn [sort_ins]; [repeat constructor|].
+  inversion H as [|? ? Ht HF]; subst. destruct (kltb (fst p) (fst q)) eqn:E.
+  - constructor; [exact H|]. constructor; [unfold kge, kltb in *; lia|].
+    eapply Forall_impl; [|exact HF]. unfold kge, kltb in *. intros a Ha. lia.
+  - constructor; [apply IH; exact Ht|].
+    eapply Permutation_Forall; [apply sort_ins_perm|]. constructor; [exact E|exact HF].
+Qed.
+Lemma sort_values_ws (l : list recd) : WSorted (sort_values l).
+Proof.
+  unfold sort_values. assert (H : forall acc, WSorted acc -> WSorted (fold_left (fun acc p => sort_ins p acc) l acc)).
+  { induction l as [|p t IH]; intros acc Ha; cbn [fold_left]; [exact Ha|]. apply IH. now apply sort_ins_ws. }
+  apply H. constructor.
+Qed.
+Lemma ws_rowsorted (l : list recd) : WSorted l -> RowSorted l.
+Proof.
+  unfold WSorted, RowSorted. induction 1 as [|p t Ht IH HF]; cbn [map]; constructor; [exact IH|].
+  rewrite Forall_map. eapply Forall_impl; [|exact HF]. unfold kge, kltb, rowof. intros a Ha. lia.
+Qed.
+Lemma ssorted_ws (l : list recd) : StronglySorted klt (map fst l) -> WSorted l.
+Proof.
+  unfold WSorted. induction l as [|p t IH]; cbn [map]; intro H; [constructor|].
+  inversion H as [|? ? Ht HF]; subst. constructor; [apply IH; exact Ht|].
+  rewrite Forall_map in HF. eapply Forall_impl; [|exact HF]. unfold kge, kltb, klt. intros a Ha. lia.
+Qed.
+
+Lemma sort_ins_last (p : recd) acc : Forall (fun q => kge q p) acc -> sort_ins p acc = acc ++ [p].
+Proof.
+  induction acc as [|q t IH]; intro H; [reflexivity|]. inversion H as [|? ? Hq Ht]; subst.
+  cbn [sort_ins app]. unfold kge in Hq. rewrite Hq. now rewrite IH.
+Qed.
+Lemma ws_app_inv (a : list recd) p t : WSorted (a ++ p :: t) -> Forall (fun q => kge q p) a.
+Proof.
+  unfold WSorted. induction a as [|x a IH]; cbn [app]; intro H; [constructor|].
+  inversion H as [|? ? Ha HF]; subst. constructor; [|apply IH; exact Ha].
+  rewrite Forall_forall in HF. apply HF. apply in_or_app. right. left. reflexivity.
+Qed.
+(** sorting an already (weakly) sorted chunk changes nothing *)
+Lemma sort_values_id (l : list recd) : WSorted l -> sort_values l = l.
+Proof.
+  unfold sort_values. assert (H : forall acc, WSorted (acc ++ l) -> fold_left (fun acc p => sort_ins p acc) l acc = acc ++ l).
+  { induction l as [|p t IH]; intros acc Ha; cbn [fold_left]; [now rewrite app_nil_r|].
+    rewrite (sort_ins_last p acc (ws_app_inv acc p t Ha)). rewrite IH; rewrite <- app_assoc; [reflexivity|exact Ha]. }
+  apply (H []).
+Qed.
+
+Lemma validate_ok n b t d s (ch ch' : list recd) :
+  validate_pixels n b t d s ch = Ok ch' -> ch' = if s then sort_values ch else ch.
+Proof.
+  unfold validate_pixels.
+  repeat match goal with |- context [if ?c then Err _ else _] => destruct c end; intro H; inversion H; reflexivity.
+Qed.
+Lemma check_chunk_ok n o vcheck (ch ch' : list recd) :
+  check_chunk n o vcheck ch = Ok ch' -> ch' = if o_sort o then sort_values ch else ch.
+Proof.
+  unfold check_chunk. destruct (validate_pixels n (o_bounds o) (o_triu o) (o_dup o) (o_sort o) ch) as [c|e] eqn:E; cbn [bind]; [|discriminate].
+  apply validate_ok in E. destruct (forallb _ c); intro H; inversion H; subst; reflexivity.
+Qed.
+(** a chunk that is already sorted by key is written unchanged, whatever the options *)
+Lemma check_chunk_sorted n o vcheck (ch ch' : list recd) :
+  StronglySorted klt (map fst ch) -> check_chunk n o vcheck ch = Ok ch' -> ch' = ch.
+Proof.
+  intros HS H. apply check_chunk_ok in H. destruct (o_sort o); [|exact H].
+  rewrite H. apply sort_values_id. now apply ssorted_ws.
+Qed.
+
+Lemma mapM_ok {A B} (f : A -> res B) l r : mapM f l = Ok r -> Forall2 (fun x y => f x = Ok y) l r.
+Proof.
+  revert r. induction l as [|x t IH]; intros r H; cbn [mapM] in H.
+  - inversion H. constructor.
+  - destruct (f x) as [y|e] eqn:Ex; cbn [bind] in H; [|discriminate].
+    destruct (mapM f t) as [ys|e] eqn:Et; cbn [bind] in H; [|discriminate].
+    inversion H; subst. constructor; [exact Ex|]. now apply IH.
+Qed.
+Lemma mapM_total {A B} (f : A -> res B) l : Forall (fun x => exists y, f x = Ok y) l -> exists r, mapM f l = Ok r.
+Proof.
+  induction 1 as [|x t (y & Ey) _ (r & Er)]; cbn [mapM]; [eexists; reflexivity|].
+  rewrite Ey, Er. cbn [bind]. eexists; reflexivity.
+Qed.
+End Sorting.
+
+(* ================================================================== F. create / merge pass / unordered ingestion *)
+Section Unordered.
+Context {V : Type}.
+Notation recd := (key * V)%type.
+Variables (n : nat) (o : copts) (vcheck : V -> bool) (agg : list V -> V).
+
+Lemma create_g_ok (chunks : list (list recd)) m : create_g n o vcheck chunks = Ok m ->
+  exists cs, Forall2 (fun ch ch' => check_chunk (Z.of_nat n) o vcheck ch = Ok ch') chunks cs /\ m = mk_cool n (concat cs).
+Proof.
+  unfold create_g. destruct (mapM _ chunks) as [cs|e] eqn:E; cbn [bind]; [|discriminate].
+  intro H; inversion H; subst. exists cs. split; [now apply mapM_ok|reflexivity].
+Qed.
+Lemma create_g_sorted (chunks : list (list recd)) m :
+  Forall (fun ch => StronglySorted klt (map fst ch)) chunks ->
+  create_g n o vcheck chunks = Ok m -> m = mk_cool n (concat chunks).
+Proof.
+  intros HS H. apply create_g_ok in H. destruct H as (cs & F & ->). f_equal. f_equal.
+  induction F as [|ch ch' t t' Hc _ IH]; [reflexivity|]. inversion HS; subst. f_equal; [|now apply IH].
+  eapply check_chunk_sorted; eauto.
+Qed.
+
+Lemma merger_epochs_sorted (inputs : list (mcool V)) part : forall starts,
+  Forall (fun e => StronglySorted klt (map fst e)) (merger_epochs agg inputs starts part).
+Proof.
+  induction part as [|b rest IH]; intros starts; cbn [merger_epochs]; [constructor|].
+  destruct (epoch_frames inputs starts _) as [|r fr]; [apply IH|]. constructor; [apply groupby_agg_sorted|apply IH].
+Qed.
+
+(** one merge pass (CoolerMerger + create) over valid inputs writes exactly the group-by aggregate *)
+Lemma merge_g_exact (inputs : list (mcool V)) buf m :
+  (1 <= n)%nat -> 0 <= buf -> Forall (ValidIn n) inputs ->
+  merge_g n o vcheck agg inputs buf = Ok m ->
+  inputs <> [] /\ m = mk_cool n (groupby_agg agg (allpx inputs)).
+Proof.
+  intros Hn Hb HV H. destruct inputs as [|c0 t] eqn:Ei; [discriminate|]. rewrite <- Ei in *.
+  assert (Hne : inputs <> []) by (rewrite Ei; discriminate). split; [exact Hne|].
+  assert (H' : bind (cooler_merger agg inputs buf) (create_g n o vcheck) = Ok m) by (rewrite Ei in *; exact H).
+  destruct (merger_exact agg n inputs buf Hne Hn HV Hb) as (eps & E & Ec & _). rewrite E in H'. cbn [bind] in H'.
+  apply create_g_sorted in H'; [now rewrite H', Ec|].
+  unfold cooler_merger in E. destruct (merge_breakpoints_auto _ _) as [p|e]; cbn [bind] in E; [|discriminate].
+  inversion E. apply merger_epochs_sorted.
+Qed.
+
+(** admissible edge list of the first merge pass over k chunks: 0 = e0 < e1 < ... < em = k *)
+Definition Admissible (k : nat) (e : list nat) : Prop :=
+  hd 1%nat e = O /\ last e O = k /\ StronglySorted lt e.
+
+Lemma firstn_add {A} (l : list A) x y : firstn (x + y) l = firstn x l ++ firstn y (skipn x l).
+Proof.
+  revert l. induction x as [|x IH]; intros l; [reflexivity|].
+  destruct l as [|a l]; cbn [plus firstn skipn app]; [now rewrite firstn_nil|]. now rewrite IH.
+Qed.
+Lemma skipn_add {A} (l : list A) x y : skipn (x + y) l = skipn y (skipn x l).
+Proof.
+  revert l. induction x as [|x IH]; intros l; [reflexivity|].
+  destruct l as [|a l]; cbn [plus skipn]; [now rewrite skipn_nil|]. apply IH.
+Qed.
+Lemma nslice_app {A} (l : list A) a b c : (a <= b <= c)%nat -> nslice l a b ++ nslice l b c = nslice l a c.
+Proof.
+  intros H. unfold nslice. replace (c - a)%nat with ((b - a) + (c - b))%nat by lia.
+  rewrite firstn_add. f_equal. f_equal. rewrite <- skipn_add. f_equal. lia.
+Qed.
+Lemma pairs_tile_from {A} (l : list A) rest : forall a, StronglySorted lt (a :: rest) ->
+  concat (map (fun lh => nslice l (fst lh) (snd lh)) (pairs (a :: rest))) = nslice l a (last rest a).
+Proof.
+  induction rest as [|b rest IH]; intros a HS.
+  - cbn. unfold nslice. now rewrite Nat.sub_diag.
+  - change (pairs (a :: b :: rest)) with ((a, b) :: pairs (b :: rest)). cbn [map concat fst snd].
+    inversion HS as [|? ? HS' HF]; subst. rewrite (IH b HS').
+    assert (a < b)%nat by (inversion HF; assumption).
+    assert (b <= last rest b)%nat.
+    { apply ssorted_le_last. clear -HS'. induction HS' as [|x l H IH HF]; constructor; [exact IH|].
+      eapply Forall_impl; [|exact HF]. cbn. intros; lia. }
+    rewrite nslice_app by lia. f_equal. symmetry. apply last_cons_default.
+Qed.
+Lemma pairs_tile {A} (l : list A) e : Admissible (length l) e ->
+  concat (map (fun lh => nslice l (fst lh) (snd lh)) (pairs e)) = l.
+Proof.
+  intros (H0 & Hl & HS). destruct e as [|a rest]; [cbn in H0; lia|]. cbn [hd] in H0. subst a.
+  rewrite (pairs_tile_from l rest O HS).
+  assert (last rest O = length l) by (rewrite <- Hl; symmetry; apply last_cons_default).
+  unfold nslice. rewrite H, Nat.sub_0_r. cbn [skipn]. apply firstn_all.
+Qed.
+Lemma pairs_bounds rest : forall a k, StronglySorted lt (a :: rest) -> (last rest a <= k)%nat ->
+  Forall (fun lh => (fst lh < snd lh <= k)%nat) (pairs (a :: rest)).
+Proof.
+  induction rest as [|b rest IH]; intros a k HS Hk; [constructor|].
+  change (pairs (a :: b :: rest)) with ((a, b) :: pairs (b :: rest)).
+  inversion HS as [|? ? HS' HF]; subst. assert (a < b)%nat by (inversion HF; assumption).
+  assert (Hl : last (b :: rest) a = last rest b) by apply last_cons_default. rewrite Hl in Hk.
+  assert (b <= last rest b)%nat.
+  { apply ssorted_le_last. clear -HS'. induction HS' as [|x l H IH' HF]; constructor; [exact IH'|].
+    eapply Forall_impl; [|exact HF]. cbn. intros; lia. }
+  constructor; [cbn [fst snd]; lia|]. apply IH; assumption.
+Qed.
+
+Lemma forall2_length {A B} (P : A -> B -> Prop) l r : Forall2 P l r -> length l = length r.
+Proof. induction 1; cbn [length]; congruence. Qed.
+Lemma forall2_map {A B} (f : A -> B) l r : Forall2 (fun x y => y = f x) l r -> r = map f l.
+Proof. induction 1 as [|x y l r E _ IH]; [reflexivity|]. cbn [map]. now rewrite E, IH. Qed.
+Lemma forall2_impl {A B} (P Q : A -> B -> Prop) l r :
+  (forall x y, In x l -> P x y -> Q x y) -> Forall2 P l r -> Forall2 Q l r.
+Proof.
+  intros H F. induction F as [|x y l r Hp _ IH]; constructor.
+  - apply H; [left; reflexivity|exact Hp].
+  - apply IH. intros; apply H; [right|]; assumption.
+Qed.
+Lemma in_firstn' {A} (x : A) k l : In x (firstn k l) -> In x l.
+Proof. revert l. induction k as [|k IH]; intros [|a l] H; cbn [firstn] in H; try contradiction. destruct H; [now left|right; now apply IH]. Qed.
+Lemma in_skipn' {A} (x : A) k l : In x (skipn k l) -> In x l.
+Proof. revert l. induction k as [|k IH]; intros [|a l] H; cbn [skipn] in H; try contradiction; try exact H. right; now apply IH. Qed.
+Lemma forall_nslice {A} (P : A -> Prop) l a b : Forall P l -> Forall P (nslice l a b).
+Proof.
+  intros H. unfold nslice. rewrite Forall_forall in *. intros x Hx. apply H.
+  apply in_firstn' in Hx. eapply in_skipn'; exact Hx.
+Qed.
+
+(** properties of the aggregation function that chunk-order independence and the two-level merge need;
+    both hold for the integer sum (below) *)
+Hypothesis agg_perm : forall l l' : list recd, Permutation l l' -> groupby_agg agg l = groupby_agg agg l'.
+Hypothesis agg_two_level : forall Gs : list (list recd),
+  groupby_agg agg (concat (map (groupby_agg agg) Gs)) = groupby_agg agg (concat Gs).
+
+Lemma allpx_concat (Gs : list (list (mcool V))) : allpx (concat Gs) = concat (map allpx Gs).
+Proof. induction Gs as [|G t IH]; [reflexivity|]. cbn [concat map]. now rewrite allpx_app, IH. Qed.
+
+(** C06 theorem 1 (partial correctness, any options, any dtype check): whenever the unordered ingestion of
+    chunks that are each sorted by bin1_id (or with ensure_sorted) and in range succeeds, the stored table
+    is the group-by aggregate of all records of all chunks, together with its index -- for every mergebuf
+    >= 0 and for a single pass as well as for every admissible edge list of the first merge pass *)
+Theorem unordered_exact (chunks : list (list recd)) buf edges m :
+  (1 <= n)%nat -> 0 <= buf ->
+  Forall (fun ch => (o_sort o = true \/ RowSorted ch) /\ Forall (fun p => 0 <= rowof p < Z.of_nat n) ch) chunks ->
+  match edges with Some e => Admissible (length chunks) e | None => True end ->
+  unordered_g n o vcheck agg chunks buf edges = Ok m ->
+  m = mk_cool n (groupby_agg agg (concat chunks)).
+Proof.
+  intros Hn Hb HC HE H. unfold unordered_g in H.
+  destruct (mapM _ chunks) as [temps|e] eqn:E1; cbn [bind] in H; [|discriminate].
+  apply mapM_ok in E1.
+  (* every temporary cooler is a valid input holding a permutation of its chunk *)
+  assert (T : Forall2 (fun ch t => ValidIn n t /\ Permutation ch (mc_px t)) chunks temps).
+  { eapply forall2_impl; [|exact E1]. intros ch t Hin Hc. cbn beta in Hc.
+    rewrite Forall_forall in HC. destruct (HC ch Hin) as (Hs & Hr).
+    apply create_g_ok in Hc. destruct Hc as (cs & F & ->).
+    inversion F as [|? ch' ? ? Hch F']; subst. inversion F'; subst. cbn [concat mk_cool mc_px]. rewrite app_nil_r.
+    apply check_chunk_ok in Hch.
+    assert (HP : Permutation ch ch') by (rewrite Hch; destruct (o_sort o); [apply sort_values_perm|reflexivity]).
+    split; [|exact HP]. constructor; cbn [mc_off mc_px]; [reflexivity| |eapply Permutation_Forall; eauto].
+    destruct (o_sort o) eqn:Es; rewrite Hch; [apply ws_rowsorted, sort_values_ws|]. destruct Hs; [discriminate|assumption]. }
+  assert (TV : Forall (ValidIn n) temps).
+  { clear -T. induction T as [|? ? ? ? (Hv & _) _ IH]; constructor; assumption. }
+  assert (TP : Permutation (concat chunks) (allpx temps)).
+  { clear -T. unfold allpx. induction T as [|? ? ? ? (_ & Hp) _ IH]; [reflexivity|]. cbn [map concat]. now apply Permutation_app. }
+  assert (TL : length temps = length chunks) by (symmetry; eapply forall2_length; exact E1).
+  destruct edges as [e|].
+  - destruct (mapM _ (pairs e)) as [finals|e'] eqn:E2; cbn [bind] in H; [|discriminate].
+    apply mapM_ok in E2.
+    assert (F2 : Forall2 (fun lh f => f = mk_cool n (groupby_agg agg (allpx (nslice temps (fst lh) (snd lh))))) (pairs e) finals).
+    { eapply forall2_impl; [|exact E2]. intros lh f _ Hm. cbn beta in Hm.
+      apply merge_g_exact in Hm; [tauto|assumption|assumption|]. now apply forall_nslice. }
+    apply forall2_map in F2.
+    assert (FV : Forall (ValidIn n) finals).
+    { rewrite F2. rewrite Forall_map. apply Forall_forall. intros lh _. apply valid_merged. now apply forall_nslice. }
+    apply merge_g_exact in H; [|assumption|assumption|assumption]. destruct H as (_ & ->). f_equal.
+    assert (EA : allpx finals = concat (map (groupby_agg agg) (map (fun lh => allpx (nslice temps (fst lh) (snd lh))) (pairs e)))).
+    { rewrite F2. unfold allpx at 1. rewrite !map_map. cbn [mc_px mk_cool]. reflexivity. }
+    rewrite EA, agg_two_level. rewrite <- (map_map (fun lh => nslice temps (fst lh) (snd lh)) allpx), <- allpx_concat.
+    rewrite pairs_tile by (rewrite TL; exact HE). symmetry. now apply agg_perm.
+  - cbn [bind] in H. apply merge_g_exact in H; [|assumption|assumption|assumption]. destruct H as (_ & ->). f_equal.
+    symmetry. now apply agg_perm.
+Qed.
+End Unordered.
+
+(* ================================================================== G. C06 for the count column (sum) *)
+
+Lemma aggregate_app_agg_r l1 l2 : aggregate (l1 ++ aggregate l2) = aggregate (l1 ++ l2).
+Proof.
+  rewrite (aggregate_perm _ _ (Permutation_app_comm l1 (aggregate l2))), aggregate_app_agg.
+  apply aggregate_perm, Permutation_app_comm.
+Qed.
+Lemma sum_perm (l l' : list pixel) : Permutation l l' -> groupby_agg sumZ l = groupby_agg sumZ l'.
+Proof. intros H. rewrite !groupby_sum_aggregate. now apply aggregate_perm. Qed.
+Lemma sum_two_level (Gs : list (list pixel)) :
+  groupby_agg sumZ (concat (map (groupby_agg sumZ) Gs)) = groupby_agg sumZ (concat Gs).
+Proof.
+  rewrite !groupby_sum_aggregate.
+  replace (map (groupby_agg sumZ) Gs) with (map aggregate Gs) by (apply map_ext; intro; symmetry; apply groupby_sum_aggregate).
+  induction Gs as [|G t IH]; [reflexivity|]. cbn [map concat].
+  rewrite aggregate_app_agg, <- aggregate_app_agg_r, IH, aggregate_app_agg_r. reflexivity.
+Qed.
+
+(** C06 theorem 1 for counts: a successful unordered ingestion stores exactly the in-memory aggregate of
+    all records, for every chunking, every mergebuf >= 0, one pass or any admissible two-pass edge list,
+    and whatever validation options / dtype check are in force *)
+Theorem unordered_eq_aggregate n o vcheck (chunks : list (list pixel)) buf edges m :
+  (1 <= n)%nat -> 0 <= buf ->
+  Forall (fun ch => (o_sort o = true \/ RowSorted ch) /\ Forall (fun p => 0 <= rowof p < Z.of_nat n) ch) chunks ->
+  match edges with Some e => Admissible (length chunks) e | None => True end ->
+  unordered_g n o vcheck sumZ chunks buf edges = Ok m ->
+  mc_px m = aggregate (concat chunks) /\ mc_off m = index_of n (mc_px m) /\
+  total (mc_px m) = total (concat chunks).
+Proof.
+  intros Hn Hb HC HE H.
+  rewrite (unordered_exact n o vcheck sumZ sum_perm sum_two_level chunks buf edges m Hn Hb HC HE H).
+  cbn [mc_px mc_off mk_cool]. rewrite groupby_sum_aggregate. split; [reflexivity|]. split; [reflexivity|apply total_aggregate].
+Qed.
+
+(** independence of the partition into chunks, of the chunk order, of mergebuf and of one vs two passes:
+    two successful ingestions of the same multiset of records give the same file content *)
+Corollary unordered_independent n o o' vc vc' (chunks chunks' : list (list pixel)) buf buf' edges edges' m m' :
+  (1 <= n)%nat -> 0 <= buf -> 0 <= buf' ->
+  Permutation (concat chunks) (concat chunks') ->
+  Forall (fun ch => (o_sort o = true \/ RowSorted ch) /\ Forall (fun p => 0 <= rowof p < Z.of_nat n) ch) chunks ->
+  Forall (fun ch => (o_sort o' = true \/ RowSorted ch) /\ Forall (fun p => 0 <= rowof p < Z.of_nat n) ch) chunks' ->
+  match edges with Some e => Admissible (length chunks) e | None => True end ->
+  match edges' with Some e => Admissible (length chunks') e | None => True end ->
+  unordered_g n o vc sumZ chunks buf edges = Ok m ->
+  unordered_g n o' vc' sumZ chunks' buf' edges' = Ok m' -> m = m'.
+Proof.
+  intros Hn Hb Hb' HP HC HC' HE HE' H H'.
+  rewrite (unordered_exact n o vc sumZ sum_perm sum_two_level chunks buf edges m Hn Hb HC HE H).
+  rewrite (unordered_exact n o' vc' sumZ sum_perm sum_two_level chunks' buf' edges' m' Hn Hb' HC' HE' H').
+  f_equal. now apply sum_perm.
+Qed.
+
+(* ---- the edge list computed by create_from_unordered *)
+Lemma ssorted_map_seq (f : nat -> nat) len : forall a,
+  (forall i j, (a <= i < j)%nat -> (j < a + len)%nat -> (f i < f j)%nat) ->
+  StronglySorted lt (map f (seq a len)).
+Proof.
+  induction len as [|len IH]; intros a H; cbn [seq map]; constructor.
+  - apply IH. intros i j Hij Hj. apply H; lia.
+  - rewrite Forall_map. apply Forall_forall. intros j Hj. apply in_seq in Hj. apply H; lia.
+Qed.
+Lemma div_step i n d : (1 <= d <= n)%nat -> (i * n / d < (i + 1) * n / d)%nat.
+Proof.
+  intros H. replace ((i + 1) * n)%nat with (i * n + n)%nat by lia.
+  apply Nat.lt_le_trans with ((i * n + 1 * d) / d)%nat.
+  - rewrite Nat.div_add by lia. lia.
+  - apply Nat.div_le_mono; lia.
+Qed.
+Lemma div_mono_strict n d : (1 <= d <= n)%nat -> forall i j, (i < j)%nat -> (i * n / d < j * n / d)%nat.
+Proof.
+  intros H i j Hij. induction Hij as [|j Hij IH].
+  - replace (S i) with (i + 1)%nat by lia. now apply div_step.
+  - eapply Nat.lt_trans; [exact IH|]. replace (S j) with (j + 1)%nat by lia. now apply div_step.
+Qed.
+
+(** C06 theorem 3: the edge list of the first merge pass (k = max(isqrt n, 2) points i*n/(k-1), exact floor)
+    is admissible for every n >= 1 chunks; in particular for n = 2, 3 (defect D9 before the repair) *)
+Theorem two_pass_edges_ok n : (1 <= n)%nat -> Admissible n (linspace_int n (Nat.max (Nat.sqrt n) 2)).
+Proof.
+  intros Hn. remember (Nat.max (Nat.sqrt n) 2) as k eqn:Ek.
+  assert (Hk : (2 <= k)%nat) by (subst k; lia).
+  assert (Hkn : (k - 1 <= n)%nat).
+  { subst k. pose proof (Nat.sqrt_le_lin n). lia. }
+  clear Ek. destruct k as [|[|k']]; try lia.
+  unfold linspace_int, Admissible. replace (S (S k') - 1)%nat with (S k') in * by lia.
+  split; [|split].
+  - cbn [seq map hd]. reflexivity.
+  - rewrite seq_S, map_app. cbn [map]. rewrite last_last. cbn [plus]. apply Nat.div_mul. lia.
+  - apply ssorted_map_seq. intros i j Hij _. apply div_mono_strict; lia.
+Qed.
+Corollary unordered_edges_ok n mm : (1 <= n)%nat ->
+  match unordered_edges n mm with Some e => Admissible n e | None => True end.
+Proof. intros Hn. unfold unordered_edges. destruct (_ && _); [now apply two_pass_edges_ok|exact I]. Qed.
